@@ -166,7 +166,6 @@ Qed.
 (* ---- non-vacuity: the hypotheses of the implications hold on a concrete operator (Qc), where the conclusions
         can also be computed: A = [[3,-1,-1,-1],[-1,2,-1,0],[0,0,1,0],[0,0,0,1]], strong pattern {0:{1,3}, 1:{0,2}},
         points 2 and 3 coarse.  Row 0 has a WEAK connection to the pattern point 2 (the case fixed in extended). ---- *)
-Local Open Scope Qc_scope.
 Definition qi (z : Z) : Qc := Q2Qc (z # 1).
 Definition exA : list (list (nat * Qc)) :=
   [ [(0%nat, qi 3); (1%nat, qi (-1)); (2%nat, qi (-1)); (3%nat, qi (-1))];
@@ -175,26 +174,26 @@ Definition exS : list (list (nat * Qc)) :=
   [ [(0%nat, qi 3); (1%nat, qi (-1)); (3%nat, qi (-1))];
     [(0%nat, qi (-1)); (1%nat, qi 2); (2%nat, qi (-1))]; [(2%nat, qi 1)]; [(3%nat, qi 1)] ].
 Definition exSt : list nat := [0; 0; 1; 1]%nat.
-Notation qsum := (sumf Qc 0 Qcplus).
+Notation qsum := (sumf Qc 0%Qc Qcplus).
 
 Lemma Qc_neq_by_eqb a b : Qc_eqb a b = false -> a <> b.
 Proof. intros H E. apply Qc_eqb_eq in E. congruence. Qed.
 
 Example C12_rowsums_computed_nonvacuous :
-  Qc_eqb (qsum (map snd (nth 0 (q_direct exA exS exSt) []))) 1 = true /\
-  Qc_eqb (qsum (map snd (nth 0 (q_mod_classical exA exS exSt 1 []) []))) 1 = true /\
-  Qc_eqb (qsum (map snd (nth 0 (q_extended exA exS exSt 1 []) []))) 1 = true /\
-  Qc_eqb (qsum (map snd (nth 1 (q_extended exA exS exSt 1 []) []))) 1 = true /\
-  q_interp_ok 2 1 [] exA exS exSt (q_extended exA exS exSt 1 []) = true /\
-  q_interp_ok 1 1 [] exA exS exSt (q_mod_classical exA exS exSt 1 []) = true.
+  Qc_eqb (qsum (map snd (nth 0%nat (q_direct exA exS exSt) []))) 1%Qc = true /\
+  Qc_eqb (qsum (map snd (nth 0%nat (q_mod_classical exA exS exSt 1%nat []) []))) 1%Qc = true /\
+  Qc_eqb (qsum (map snd (nth 0%nat (q_extended exA exS exSt 1%nat []) []))) 1%Qc = true /\
+  Qc_eqb (qsum (map snd (nth 1%nat (q_extended exA exS exSt 1%nat []) []))) 1%Qc = true /\
+  q_interp_ok 2%nat 1%nat [] exA exS exSt (q_extended exA exS exSt 1%nat []) = true /\
+  q_interp_ok 1%nat 1%nat [] exA exS exSt (q_mod_classical exA exS exSt 1%nat []) = true.
 Proof. vm_compute. repeat split. Qed.
 
 Example C12_direct_rowsum_nonvacuous :
-  length exA = length exS /\ (0 < length exA)%nat /\ isC exSt 0 = false /\ nth 0 exA [] <> [] /\
-  qsum (map snd (nth 0 exA [])) = 0 /\
-  qsum (negs Qc 0 Qc_ltb (map snd (dsc Qc 0 exSt 0 (nth 0 exA []) (nth 0 exS [])))) <> 0 /\
-  eff_diag Qc 0 Qcplus Qc_ltb Qc_eqb (map snd (dsc Qc 0 exSt 0 (nth 0 exA []) (nth 0 exS [])))
-           (map snd (tl (prep_row Qc 0 (nth 0 exA [])))) (head_val Qc 0 (prep_row Qc 0 (nth 0 exA []))) <> 0.
+  length exA = length exS /\ (0 < length exA)%nat /\ isC exSt 0%nat = false /\ nth 0%nat exA [] <> [] /\
+  qsum (map snd (nth 0%nat exA [])) = 0%Qc /\
+  qsum (negs Qc 0%Qc Qc_ltb (map snd (dsc Qc 0%Qc exSt 0%nat (nth 0%nat exA []) (nth 0%nat exS [])))) <> 0%Qc /\
+  eff_diag Qc 0%Qc Qcplus Qc_ltb Qc_eqb (map snd (dsc Qc 0%Qc exSt 0%nat (nth 0%nat exA []) (nth 0%nat exS [])))
+           (map snd (tl (prep_row Qc 0%nat (nth 0%nat exA [])))) (head_val Qc 0%Qc (prep_row Qc 0%nat (nth 0%nat exA []))) <> 0%Qc.
 Proof.
   split; [reflexivity|]. split; [simpl; lia|]. split; [reflexivity|]. split; [discriminate|].
   split; [apply Qc_eqb_eq; vm_compute; reflexivity|].
@@ -202,10 +201,10 @@ Proof.
 Qed.
 
 Example C12_mod_classical_rowsum_nonvacuous :
-  let splits := mc_splits Qc 0 Qcplus Qc_ltb exA exS exSt 1 [] in
-  let si := nth 0 splits (empty_split Qc 0) in
-  NoDup (map fst (sp_SS Qc si)) /\ mc_W Qc 0 Qcplus Qc_ltb Qc_small splits 0 <> 0 /\
-  sp_weak Qc si + qsum (map snd (sp_SS Qc si)) + qsum (map snd (sp_SU Qc si)) = 0.
+  let splits := mc_splits Qc 0%Qc Qcplus Qc_ltb exA exS exSt 1%nat [] in
+  let si := nth 0%nat splits (empty_split Qc 0%Qc) in
+  NoDup (map fst (sp_SS Qc si)) /\ mc_W Qc 0%Qc Qcplus Qc_ltb Qc_small splits 0%nat <> 0%Qc /\
+  (sp_weak Qc si + qsum (map snd (sp_SS Qc si)) + qsum (map snd (sp_SU Qc si)))%Qc = 0%Qc.
 Proof.
   intros splits si. split; [|split].
   - assert (E : map fst (sp_SS Qc si) = [3%nat]) by (vm_compute; reflexivity). rewrite E. repeat constructor. intros [].
@@ -220,6 +219,37 @@ Proof.
   destruct Hin as [E|[E|[E|[E|[]]]]]; inversion E; subst; (split; [|split]);
     try (repeat (constructor; [simpl; intuition discriminate|]); constructor);
     eexists; simpl; eauto.
+Qed.
+
+Example C12_extended_rowsum_nonvacuous :
+  let Ap := prepped Qc exA in let Sp := prepped Qc exS in let Soff := offdiag Qc exS in
+  let si := nth 0%nat Soff [] in
+  NoDup (map fst si) /\
+  e_W Qc 0%Qc Qcplus Qcmult Qcdiv Qc_ltb Qc_small Ap Sp Soff exSt 1%nat [] 0%nat <> 0%Qc /\
+  (head_val Qc 0%Qc (nth 0%nat Ap []) + qsum (map snd (e_weak_diag Qc Ap Soff exSt 1%nat [] 0%nat))
+   + qsum (map snd (e_weak_hat Qc Ap Soff exSt 0%nat))
+   + qsum (map snd (filter (fun p => isC exSt (fst p)) si))
+   + qsum (map snd (filter (fun p => isU exSt (fst p)) si)))%Qc = 0%Qc /\
+  (forall p, In p si -> isU exSt (fst p) = true ->
+     let j := fst p in
+     (Qc_small (e_cs Qc 0%Qc Qcplus Qc_ltb Ap Sp Soff exSt 0%nat j) = true ->
+      e_cs Qc 0%Qc Qcplus Qc_ltb Ap Sp Soff exSt 0%nat j = 0%Qc) /\
+     (forall q, hd_error (nth j Ap []) = Some q -> fst q = j /\ j <> 0%nat) /\
+     (forall q, In q (tl (nth j Ap [])) -> fst q = 0%nat ->
+                opp_sign Qc 0%Qc Qc_ltb (Qc_ltb (head_val Qc 0%Qc (nth j Sp [])) 0%Qc) (snd q) = true)).
+Proof.
+  intros Ap Sp Soff si.
+  assert (Esi : si = [(1%nat, qi (-1)); (3%nat, qi (-1))]) by (vm_compute; reflexivity).
+  split; [rewrite Esi; simpl; repeat (constructor; [simpl; intuition discriminate|]); constructor|].
+  split; [apply Qc_neq_by_eqb; vm_compute; reflexivity|].
+  split; [apply Qc_eqb_eq; vm_compute; reflexivity|].
+  intros p Hp HU. rewrite Esi in Hp. destruct Hp as [<-|[<-|[]]]; [|vm_compute in HU; discriminate].
+  cbn [fst]. split; [|split].
+  - intros H. vm_compute in H. discriminate.
+  - intros q Hq. assert (E : nth 1%nat Ap [] = [(1%nat, qi 2); (0%nat, qi (-1)); (2%nat, qi (-1))]) by (vm_compute; reflexivity).
+    rewrite E in Hq. simpl in Hq. inversion Hq; subst. split; [reflexivity|discriminate].
+  - intros q Hq Hq0. assert (E : nth 1%nat Ap [] = [(1%nat, qi 2); (0%nat, qi (-1)); (2%nat, qi (-1))]) by (vm_compute; reflexivity).
+    rewrite E in Hq. simpl in Hq. destruct Hq as [<-|[<-|[]]]; [vm_compute; reflexivity|simpl in Hq0; discriminate].
 Qed.
 
 Print Assumptions C12_coarse_numbering.
